@@ -20,10 +20,9 @@ package s2
 //@   fp
 //@   timeout 120
 //@   ghost lat float64, lng float64
-//@   requires r.IsValid() && other.IsValid() && vcLL(lat, lng)
-//@   ensures [sound-lat] vcInRect(r, lat, lng) || vcInRect(other, lat, lng) ==> result.Lat.Contains(lat)
-//@   ensures [sound-lng] vcInRect(r, lat, lng) || vcInRect(other, lat, lng) ==> result.Lng.Contains(lng)
-//@   ensures [valid] result.IsValid()
+//@   ensures [sound-lat] r.IsValid() && other.IsValid() && vcLL(lat, lng) && (vcInRect(r, lat, lng) || vcInRect(other, lat, lng)) ==> result.Lat.Contains(lat)
+//@   ensures [sound-lng] r.IsValid() && other.IsValid() && vcLL(lat, lng) && (vcInRect(r, lat, lng) || vcInRect(other, lat, lng)) ==> result.Lng.Contains(lng)
+//@   ensures [valid] r.IsValid() && other.IsValid() ==> result.IsValid()
 
 //@ func (r Rect) Intersection(other Rect) Rect
 //@   fp
@@ -64,9 +63,21 @@ package s2
 //@   ensures [valid] result.IsValid()
 
 //@ func (r Rect) PolarClosure() Rect
+//@   inline
 //@   fp
 //@   timeout 120
 //@   ghost lat float64, lng float64
 //@   requires r.IsValid() && vcLL(lat, lng)
 //@   ensures [kept] vcInRect(r, lat, lng) ==> vcInRect(result, lat, lng)
 //@   ensures [valid] result.IsValid()
+
+//@ func EmptyRect() Rect
+//@   fp
+//@   ensures [valid] result.IsValid()
+//@   ensures [empty] result.IsEmpty()
+
+//@ func FullRect() Rect
+//@   fp
+//@   requires vcRectConsts()
+//@   ensures [valid] result.IsValid()
+//@   ensures [full] result.IsFull()
